@@ -227,6 +227,17 @@ def run(ctx, res):
         if out[0] != 'ok' or len(terms) != n:
             res.violations.append({'key': None, 'sig': 'per-call', 'what': '%s in %s position over %d rows (the function has no row-dependent argument and returns a new value at each call): %d different terms instead of %d: %s'
                                    % (which, pos, n, len(terms), n, str(out)[:200]), 'replay': {'case': case}})
+    # ... and the file may be rewritten at the SAME path between two calls of one process: the second call applies what the file defines now
+    for c in udf_cases[:ctx.scale(3, 20)]:
+        a = _copy.deepcopy(c); a['cfg']['udf_source'] = 'udfs.py'
+        b = _copy.deepcopy(c); b['cfg']['udf_source'] = 'udfs_alt.py'
+        second = family.overwrite_run(ctx, a, b)[1]
+        exp = family.run_sequence(ctx, [b])[0]
+        res.evaluations += 1
+        res.count('udf-file-rewritten')
+        if not family.same(second, exp):
+            res.violations.append({'key': None, 'sig': 'udf-file-rewritten', 'what': 'the UDF file rewritten at the same path between two calls of one process: the second call gives %s, the file as it is now gives %s'
+                                   % (str(second)[:160], str(exp)[:160]), 'replay': {'case': c}})
     # documented contracts of the built-ins on inputs the Gallina registry does not follow (Unicode case mappings ...):
     # reference definitions written here, independent of the code
     words = ['Straße', 'ǅ', 'İstanbul', 'ﬁn', 'ΟΔΥΣΣΕΥΣ', 'ὈΔΥΣΣΕΎΣ', 'µ', 'ß', 'ı', 'Ǆ', 'abc', 'ÀÉ', ' x\u2003', '\x1cq\x85', 'a,b', '', 'ΣΑΣ', 'i̇']
